@@ -9,6 +9,8 @@ CONSTANTS
   FkB58 = 100
   FkFmt = 200
   EnSig = 200
+  OffDrivers = {}
+  SigOff = FALSE
   MaxLen = 1000000
   Mode = "single"
   CacheKey = "addr+enabled"
